@@ -35,6 +35,42 @@ FINITE_ITER = ("std::vec::", "std::slice::", "core::slice::", "std::collections:
                "std::iter::Chain", "std::iter::Skip", "std::iter::Peekable", "std::array::", "core::array::", "std::fs::ReadDir")
 
 
+_CAL = None
+
+
+def callee_total(path):
+    """is the external callee classified as total (specs/callees.json)?"""
+    global _CAL
+    if _CAL is None:
+        with open(os.path.join(VERIF, "specs", "callees.json")) as fh:
+            _CAL = json.load(fh)
+    c = _CAL
+    if path in c["total_exact"]:
+        return True
+    for pre in c["total_prefix"]:
+        if path.startswith(pre):
+            name = path.rsplit("::", 1)[-1]
+            if name in c["total_prefix_except"].get(pre, []):
+                return False
+            return True
+    m = re.match(r"^(core::num::<impl )([iu](8|16|32|64|128|size))(>::)(.*)$", path)
+    if m:
+        name = m.group(5)
+        lst = c["total_methods"]["core::num::<impl INT>::"]
+        if name in lst:
+            return True
+        for fam, tag in (("checked_", "CHECKED"), ("wrapping_", "WRAPPING"), ("saturating_", "SATURATING"), ("overflowing_", "OVERFLOWING")):
+            if name.startswith(fam) and tag in lst:
+                return True
+        return False
+    for pre, names in c["total_methods"].items():
+        if path.startswith(pre) and path[len(pre):] in names:
+            return True
+    if path.startswith("core::str::<impl str>::parse::<"):
+        return True
+    return False
+
+
 def load_j():
     with open(os.path.join(VERIF, "specs", "c04_justified.json")) as fh:
         return json.load(fh)["entries"]
@@ -98,7 +134,10 @@ def run(ctx, crate):
                     s.fn["gargs"][0].replace("&", "") in ("solang_parser::pt::Expression", "solang_parser::pt::Type", "solang_parser::pt::Statement"):
                 kind = "Display of a parse-tree type (unimplemented for most variants)"
             if kind is None:
-                continue
+                if not s.local and s.fn is not None and not callee_total(p):
+                    kind = "unclassified:" + core.short_fn(p)
+                else:
+                    continue
             n_sites += 1
             recv = s.args[0] if s.args else ("unknown", "no receiver")
             recv_s = show(recv)
@@ -143,7 +182,12 @@ def run(ctx, crate):
             # J
             if how is None:
                 how = justify(b, kind, recv_s, s, recv)
-            if how is None:
+            if how is None and kind.startswith("unclassified:"):
+                obs.append(Ob("R04.sites", fnshort, "call of %s, which is not known to be total" % p, False, site=s.where,
+                              expected="a callee classified as total in specs/callees.json, or a guard / justification for a panic-capable one",
+                              found="%s(%s)" % (core.short_fn(p), ", ".join(show(a)[:40] for a in s.args)),
+                              example="e.g. 10u128.pow(e) overflows for e >= 39 in builds with overflow checks"))
+            elif how is None:
                 obs.append(Ob("R04.sites", fnshort, "%s on %s" % (kind, recv_s[-90:]), False, site=s.where,
                               expected="a dominating guard or a justification", found="guard: %s" % S.guard_str(g)[-160:]))
             else:
